@@ -15,7 +15,7 @@ from .. import world as W
 from . import _ws
 
 ID = 'C18'
-TIERS = {'quick': {'seeds': 8000, 'seconds': 75, 'determinism': 24},
+TIERS = {'quick': {'seeds': 8000, 'seconds': 45, 'determinism': 24},
          'thorough': {'seconds': 900, 'determinism': 128, 'minimise_s': 120}}
 RULE = ('in-process runs of small worlds under every subset of {--gc a [b [c]], -G flag..., '
         '--coverage, --profile cProfile, --buffer, warnings= argument, -D with scripted stdin} x '
